@@ -95,6 +95,29 @@ fn apply_factory_run_to_completion() {
     core::mem::forget(wk);
 }
 
+/// Clone: a clone is the same combinator over the same parts — `apply_call` holds of it verbatim   [C11]
+#[kani::proof]
+fn apply_call_on_clone() {
+    let orig = apply_fn(Leaf { id: S }, wrap);
+    let s = orig.clone();          // everything below is asked of the CLONE
+    let req: u16 = kani::any();
+    let f: OFut = s.call(req);
+    assert!(w_calls() == 1 && w_req() == req && w_svc() == S);
+    assert!(f.id == W && !f.done);
+    assert!(untouched(S) && untouched(W));
+}
+
+/// Clone: a clone is the same combinator over the same parts — `apply_factory_new_service` holds of it verbatim   [C11]
+#[kani::proof]
+fn apply_factory_new_service_on_clone() {
+    let orig = apply_fn_factory(LeafFactory { id: S }, wrap);
+    let fac = orig.clone();          // everything below is asked of the CLONE
+    let cfg: u8 = kani::any();
+    let f = fac.new_service(cfg);
+    assert!(new_calls(S) == 1 && new_cfg(S) == cfg && fact_polls(S) == 0 && w_calls() == 0);
+    assert!(f.wrap_fn.is_some() && f.fut.id == S && !f.fut.done);
+}
+
 #[kani::proof]
 fn reach() {
     let mut f = ApplyServiceFactoryResponse::<LeafFactory, _, OFut, u16, u8, u8, u8>::new(OFactFut { id: S, done: false }, wrap);
